@@ -103,10 +103,14 @@ def run(db, res, tier):
             res.ob(True, f"{lc.name}|{key}|look-at(tabled)")
           else:
             res.ob(False, f"{lc.name}|{key}|other", Finding("R-NORM.4", f"{lc.name}|{key}|not-from-quat_to_mat", f"{key} is stored as `{show(x)[:90]}`, not quat_to_mat of a unit quaternion", a.loc))
+  from ..rules import r_norm
+
+  nsq = r_norm.check_state_quats_normalised(res, db.launch_ctxs())
+  res.floor("quaternions assembled from qpos (R-NORM.5)", nsq, 8)
   res.floor("quaternion slots of qpos", nq, 8)
   res.floor("xquat stores", nx, 2)
   res.floor("orientation matrix stores", nm, 6)
-  res.rule_text = "R-NORM (must-pass-through): every quaternion component stored into qpos by the integrators is a component of the normalised result of quat_integrate (whose every return is wp.normalize(...)); every store to xquat is wp.normalize(...); every orientation matrix (xmat, ximat, geom_xmat, site_xmat, cam_xmat) is quat_to_mat of quaternions assembled only from xquat and Model quaternions, or a Model reference matrix"
+  res.rule_text = "R-NORM.5: every quaternion assembled from four qpos loads passes through wp.normalize before any other use (all kernels); R-NORM (must-pass-through): every quaternion component stored into qpos by the integrators is a component of the normalised result of quat_integrate (whose every return is wp.normalize(...)); every store to xquat is wp.normalize(...); every orientation matrix (xmat, ximat, geom_xmat, site_xmat, cam_xmat) is quat_to_mat of quaternions assembled only from xquat and Model quaternions, or a Model reference matrix"
   res.explanation = "Decides the first clause of C23 structurally (unit norm is re-established by a normalisation barrier on every path, for any input state). Not decided: drift magnitude, unit norm of Model quaternions (MuJoCo compiler invariant), the camera look-at frame (numeric)."
   res.extra["analysed"] = {"kernels_examined": sorted(seen)}
   res.assumptions += ["Model quaternions (body_quat, body_iquat, geom_quat, site_quat, cam_quat, ...) are unit (MuJoCo compiler)", "wp.normalize returns a unit vector for non-zero input"]
